@@ -866,9 +866,10 @@ func (e *Executor) Execute(ctx context.Context, m File) (err error) {
 			}
 		}
 	}
-	// The statements that were not applied yet may have been edited
-	// since the last attempt, update the total number of statements.
+	// The statements that were not applied yet may have been edited since the last
+	// attempt, update the total number of statements and the hash of the file.
 	r.Total = len(stmts)
+	r.Hash = hash
 	e.log.Log(LogFile{m, r.Version, r.Description, r.Applied})
 	if err := e.fileChecks(ctx, m, r); err != nil {
 		e.log.Log(LogError{Error: err})
